@@ -28,6 +28,7 @@ type Prog struct {
 	inlineExtern map[string]bool
 	typeIndex    map[string]types.Type
 	pkgDirs      map[string]string
+	mutGlobals   map[*ssa.Global]bool // package-level variables assigned outside package initialisers
 }
 
 func loadProg(repo, verifDir string) (*Prog, error) {
@@ -80,6 +81,51 @@ func loadProg(repo, verifDir string) (*Prog, error) {
 			if t, ok := m.(*ssa.Type); ok {
 				p.typeIndex[tp.Pkg.Path()+"."+name] = t.Type()
 				p.typeIndex[tp.Pkg.Name()+"."+name] = t.Type()
+			}
+		}
+	}
+	p.mutGlobals = map[*ssa.Global]bool{}
+	for fn := range ssautil.AllFunctions(prog) {
+		if fn.Pkg == nil || !strings.HasPrefix(fn.Pkg.Pkg.Path(), p.modulePath) {
+			continue
+		}
+		isInit := fn.Name() == "init" || strings.HasPrefix(fn.Name(), "init#")
+		for _, b := range fn.Blocks {
+			for _, in := range b.Instrs {
+				if st, ok := in.(*ssa.Store); ok && !isInit {
+					root := st.Addr
+					for {
+						switch x := root.(type) {
+						case *ssa.FieldAddr:
+							root = x.X
+							continue
+						case *ssa.IndexAddr:
+							root = x.X
+							continue
+						}
+						break
+					}
+					if g, ok := root.(*ssa.Global); ok {
+						p.mutGlobals[g] = true
+					}
+				}
+				// a global whose address escapes may be written anywhere
+				if !isInit {
+					for _, op := range in.Operands(nil) {
+						if g, ok := (*op).(*ssa.Global); ok {
+							switch x := in.(type) {
+							case *ssa.UnOp, *ssa.FieldAddr, *ssa.IndexAddr:
+								_ = x
+							case *ssa.Store:
+								if x.Val == g {
+									p.mutGlobals[g] = true
+								}
+							default:
+								p.mutGlobals[g] = true
+							}
+						}
+					}
+				}
 			}
 		}
 	}
@@ -163,7 +209,7 @@ var setsRe = regexp.MustCompile(`^(\$[A-Za-z0-9_]+)\s*=\s*(.*)$`)
 
 func (p *Prog) newUnit(fn *ssa.Function) *Unit {
 	return &Unit{p: p, fn: fn, fc: p.contractFor(fn), ss: newSorts(), loops: map[*ssa.Function]map[*ssa.BasicBlock]*Loop{},
-		ordinals: map[ssa.Instruction]int{}, entryVals: map[string]Term{}, escCache: map[*ssa.Alloc]bool{}, usedLib: map[string]bool{}, declared: map[string]bool{}}
+		ordinals: map[ssa.Instruction]int{}, entryVals: map[string]Term{}, escCache: map[*ssa.Alloc]bool{}, usedLib: map[string]bool{}, declared: map[string]bool{}, usedBounded: map[string]string{}, usedEnsures: map[string]bool{}}
 }
 
 func (p *Prog) verifyFunc(fn *ssa.Function) (u *Unit) {
